@@ -119,6 +119,8 @@ type World struct {
 	dbAddr  string
 	scnID   string
 	quiesceTimeout time.Duration
+	sentMark  int
+	expectPub bool
 }
 
 func NewWorld(ctx context.Context, n int, out *bufio.Writer) (*World, error) {
@@ -166,6 +168,21 @@ func NewWorld(ctx context.Context, n int, out *bufio.Writer) (*World, error) {
 	}
 	verifhook.Set(w.hook)
 	return w, nil
+}
+
+// startInstanceFresh recreates the identity from the (persistent) keystore, as a restarted process would.
+func (w *World) startInstanceFresh(p *Peer) error {
+	ks, err := keystore.NewKeystore(p.ksStore)
+	if err != nil {
+		return err
+	}
+	p.ks = ks
+	ident, err := idp.CreateIdentity(w.ctx, &idp.CreateIdentityOptions{Keystore: ks, Type: "orbitdb", ID: w.net.ids[p.idx].String()})
+	if err != nil {
+		return err
+	}
+	p.identity = ident
+	return w.startInstance(p)
 }
 
 func (w *World) startInstance(p *Peer) error {
